@@ -8,11 +8,12 @@ import Bandit.Config
 `snmp_security_check.py`)
 
 The model follows the Python statement by statement, including the order in which the context
-accessors are evaluated, because each accessor can raise: `context.call_keywords` evaluates *every*
-keyword value and `context.call_args` *every* positional argument through `_get_literal_value`,
-which raises `TypeError` on a set display with an unhashable element (`{[1]}`); `<` between a
-non-number and an `int`, `in` on a dict with an unhashable key, and `config[...]` on a missing key
-raise as well.  Crashes are `throw`n, never totalised away.
+accessors are evaluated, because accessors and comparisons can raise: `<` between an argument and a
+non-numeric configured threshold and `config[...]` on a missing key / non-mapping do (malformed
+settings).  Crashes are `throw`n, never totalised away.  The model follows /repo AFTER the fixes
+60708c5 (B509 keyword keys), 6e22cbb (B505 non-numeric sizes / curves) and the `_get_literal_value`
+set-display fix: on valid Python with well-formed settings no check here raises any more
+(`Props.C15.*_total`).
 
 The literal tables that live inside the plugin modules are a parameter (`CryptoTables`); the
 instance regenerated from /repo on every run is `Bandit.Plugins.genCryptoTables`
@@ -137,9 +138,14 @@ def pyLtCfg (a : PyVal) (b : CfgVal) : M Bool := do
 
 def b505Raw (sev : Rank) : PRaw := { sev := sev, conf := .high }
 
+/-- `isinstance(v, (int, float))` for an evaluated argument (`True`/`False` arrive as strings) -/
+def _root_.Bandit.PyVal.isNumber : PyVal → Bool
+  | .int _ | .rat _ _ | .flt _ => true
+  | _ => false
+
 /-- `_classify_key_size`: the `key_sizes` dict display evaluates all six settings first -/
 def classifyKeySize (cfg : CfgVal) (keyType : Str) (keySize : PyVal) : M (Option PRaw) := do
-  if keySize.isStr then return none
+  if !keySize.isNumber then return none      -- `if not isinstance(key_size, (int, float)): return`
   let dh ← cfgIndex cfg "weak_key_size_dsa_high"
   let dm ← cfgIndex cfg "weak_key_size_dsa_medium"
   let rh ← cfgIndex cfg "weak_key_size_rsa_high"
@@ -174,7 +180,7 @@ def curveArg (c : CallView) (pos : M Nat) : M PyVal := do
   let p ← pos
   return (args[p]?).getD (.int 0)
 
-/-- `curve_key_sizes[curve] if curve in curve_key_sizes else 224` (keys are strings) -/
+/-- `curve_key_sizes.get(curve, 224) if isinstance(curve, str) else 224` -/
 def curveSizeOf (T : CryptoTables) : PyVal → Int
   | .str s => (assocGet T.curveKeySizes s).getD 224
   | _ => 224
@@ -192,8 +198,6 @@ def b505Cio (T : CryptoTables) (cfg : CfgVal) (e : Env) (c : CallView) : M (Opti
       classifyKeySize cfg kt ks
     else if kt == "EC".toList then
       let curve ← curveArg c pos
-      -- `curve in curve_key_sizes` hashes the value
-      if !curve.hashable then throw .typeError
       classifyKeySize cfg kt (.int (curveSizeOf T curve))
     else return none
 
@@ -351,22 +355,24 @@ def b508 (e : Env) : M (Option PRaw) := do
       return some { sev := .medium, conf := .high, loc := .kw ["CommunityData"] }
   return none
 
+/-- `snmp_crypto_check` (after /repo fix 60708c5): keys passed as `authKey=` / `privKey=` count like
+the second / third positional argument; keyword *names* are read off the node, nothing is evaluated. -/
 def b509 (e : Env) : M (Option PRaw) := do
-  let some c := e.call? | throw .attributeError
-  if e.qual == "pysnmp.hlapi.UsmUserData".toList then
-    if c.args.length < 3 then
-      return some { sev := .medium, conf := .high, loc := .kw ["UsmUserData"] }
-  return none
-
-/-- **Model variant for `proposed_fixes/C15-b509-keyword-keys.diff`** (not registered): keys
-passed as `authKey=` / `privKey=` count like the second / third positional argument. -/
-def b509Fixed (e : Env) : M (Option PRaw) := do
   let some c := e.call? | throw .attributeError
   if e.qual == "pysnmp.hlapi.UsmUserData".toList then
     let hasKw (n : String) : Bool := c.keywords.any (fun k => CallView.kwName k == some n.toList)
     let hasAuth := decide (c.args.length > 1) || hasKw "authKey"
     let hasPriv := decide (c.args.length > 2) || hasKw "privKey"
     if !(hasAuth && hasPriv) then
+      return some { sev := .medium, conf := .high, loc := .kw ["UsmUserData"] }
+  return none
+
+/-- the check as it was before the fix (`call_args_count < 3`); kept only for the regression
+witness `Props.C15.NEG_b509_positional_only` -/
+def b509PositionalOnly (e : Env) : M (Option PRaw) := do
+  let some c := e.call? | throw .attributeError
+  if e.qual == "pysnmp.hlapi.UsmUserData".toList then
+    if c.args.length < 3 then
       return some { sev := .medium, conf := .high, loc := .kw ["UsmUserData"] }
   return none
 
